@@ -44,6 +44,13 @@ CLAIMED = {
             note="Trusted: Coq kernel, extraction+driver, harness. The Table/View machinery, _remove and _grouped_ys are not modelled here (end-to-end comparison only); the 'exp' weighting has a model but no closed-form theorem; "
                  "raw_learners and where_best are oracle-only; span=0 is outside the property as read (division by zero by construction).",
             technique="Coq proof (pigeonhole on levels, prefix-sum algebra) + extracted-model correspondence + recomputation oracle", design="§5 C18"),
+ "C13": dict(text="Coq theorem lazy_eq_eager (C13/Props.v): for every well-formed pipeline of HeadRows / EncodeRows / DropRows (by position and name) / LabelRows.feats stages and every dense row, iteration, "
+                  "length, positional access, header-name access and .headers of the lazy view (a record of access functions built exactly as the wrapper classes build them) equal the eager list computation - "
+                  "a representation invariant proved stage by stage, by induction over the pipeline; feats/label split; load-once rows are transparent under any access sequence. "
+                  "The model's views are compared with the real classes on generated tables, pipelines and shuffled access sequences (incl. partial iteration); an eager oracle also covers sparse rows and lazy ARFF rows.",
+            note="Trusted: Coq kernel, extraction+driver, harness. Sparse wrappers, LazySparse/LazyDense missing-value handling, EncodeCatRows and row predicates are oracle-only (no theorem); the model's encoders are a four-constructor family; "
+                 "keys outside the eager table (negative positions, dropped names) are outside the property.",
+            technique="Coq proof (representation invariant over access-function records) + extracted-model correspondence + eager oracle", design="§5 C13"),
 }
 NA_REASON = "check not built yet in this revision (planned, see DESIGN.md §8); no claim is made"
 def main():
